@@ -8,7 +8,13 @@ import (
 
 var VerifEvoBad bool
 
+// VerifParseHook, when set by a harness (C20), supplies the result of the ParsePackageContents seam.
+var VerifParseHook func(pkgInfo *packaging.PackageInfo) (*Namespace, error)
+
 func verifRepl_ParsePackageContents(pkgInfo *packaging.PackageInfo) (*Namespace, error) {
+	if VerifParseHook != nil {
+		return VerifParseHook(pkgInfo)
+	}
 	verifEvent("parse", pkgInfo.PackageDir())
 	switch packaging.VerifModes[pkgInfo.PackageDir()] {
 	case "parsebad":
